@@ -9,7 +9,9 @@
 (***************************************************************************)
 EXTENDS Integers, Sequences, FiniteSets, TLC
 
-CONSTANTS MaxLen, MaxVal, Export
+CONSTANTS MaxLen, MaxVal, Export,
+          TableVariant     \* 1 | 2: two set assignments of the SAME rows (the driver edits one table object in place
+                           \* from variant 1 to 2 and back between look-ups: the answer must follow the current table)
 
 Vals == 0..MaxVal
 Seqs(n) == UNION {[1..k -> Vals] : k \in 0..n}
@@ -69,10 +71,15 @@ MergeSpec(l1, l2) == <<Range(l1) \cup Range(l2), Cardinality(Range(l1) \cup Rang
 ---------------------------------------------------------------------------
 (* mkdofpv / expanddof on a fixed USET table                                *)
 (* table rows <<id, dof, base set>> in table order                          *)
-Table == << <<10, 1, "b">>, <<10, 2, "b">>, <<10, 3, "b">>, <<10, 4, "c">>, <<10, 5, "c">>, <<10, 6, "m">>,
-            <<20, 0, "q">>,
-            <<30, 1, "s">>, <<30, 2, "s">>, <<30, 3, "o">>, <<30, 4, "o">>, <<30, 5, "r">>, <<30, 6, "e">>,
-            <<5, 0, "q">> >>
+Table1 == << <<10, 1, "b">>, <<10, 2, "b">>, <<10, 3, "b">>, <<10, 4, "c">>, <<10, 5, "c">>, <<10, 6, "m">>,
+             <<20, 0, "q">>,
+             <<30, 1, "s">>, <<30, 2, "s">>, <<30, 3, "o">>, <<30, 4, "o">>, <<30, 5, "r">>, <<30, 6, "e">>,
+             <<5, 0, "q">> >>
+Table2 == << <<10, 1, "s">>, <<10, 2, "b">>, <<10, 3, "q">>, <<10, 4, "c">>, <<10, 5, "m">>, <<10, 6, "m">>,
+             <<20, 0, "s">>,
+             <<30, 1, "b">>, <<30, 2, "s">>, <<30, 3, "q">>, <<30, 4, "o">>, <<30, 5, "b">>, <<30, 6, "e">>,
+             <<5, 0, "o">> >>
+Table == IF TableVariant = 1 THEN Table1 ELSE Table2
 SetMembers(name) ==
   CASE name = "p" -> {"m", "s", "o", "q", "r", "c", "b", "e"}
     [] name = "a" -> {"c", "b", "r", "q"}
@@ -151,4 +158,5 @@ Laws ==
                                                  /\ SubTable(q.set)[r[1][i] + 1][2] = r[2][i][2])
 
 ExportOK == Export => PrintT(<<"LOC", q, Answer(q)>>)
+ExportTable == Export => (q = [fn |-> "index2slice", a |-> <<>>] => PrintT(<<"TABLE", TableVariant, Table>>))
 =============================================================================
